@@ -42,6 +42,7 @@ type memCall struct {
 	in       bytes.Buffer // request body bytes on "the wire", not yet read by the server
 	inEOF    bool
 	inErr    error
+	pumpDone chan struct{}
 
 	// response
 	hdr       http.Header
@@ -86,6 +87,7 @@ func (b *memReqBody) Read(p []byte) (int, error) {
 // pump plays the role of http.Transport's write loop: it copies the request
 // body to "the wire" as fast as the client produces it.
 func (c *memCall) pump() {
+	defer close(c.pumpDone)
 	buf := make([]byte, 32<<10)
 	for {
 		n, err := c.src.Read(buf)
@@ -217,7 +219,7 @@ func (t *memTransport) RoundTrip(req *http.Request) (*http.Response, error) {
 		}
 		return nil, err
 	}
-	c := &memCall{ctx: ctx, hdr: http.Header{}, sentCh: make(chan struct{})}
+	c := &memCall{ctx: ctx, hdr: http.Header{}, sentCh: make(chan struct{}), pumpDone: make(chan struct{})}
 	c.cond = sync.NewCond(&c.mu)
 	c.sctx, c.scancel = context.WithCancel(context.Background())
 	c.src = req.Body
@@ -290,6 +292,10 @@ func (t *memTransport) RoundTrip(req *http.Request) (*http.Response, error) {
 	select {
 	case <-c.sentCh:
 	case <-ctx.Done():
+		// net/http (persistConn.mapRoundTripError): a failed round trip
+		// waits for the write loop, i.e. for the pending read of the
+		// request body, to end before it returns
+		<-c.pumpDone
 		return nil, ctx.Err()
 	}
 	c.mu.Lock()
